@@ -32,6 +32,38 @@ pub enum TSpec {
     Coll { kind: CollKind, cont: ContKind, members: Vec<TSpec>, poison: bool },
     /// `&node` of an earlier shared target
     Shared(usize),
+    /// a collection that owns its (heap-placed) leaves; top-level targets only
+    Own { kind: OwnKind, cont: ContKind, leaves: Vec<Lid>, ctor: Ctor, poison: bool },
+    /// member wrapped in a drop-counting tag
+    Tagged(usize, Box<TSpec>),
+}
+
+#[derive(Clone, Copy, PartialEq, Eq, Debug, Serialize, Deserialize, Hash, PartialOrd, Ord)]
+pub enum OwnKind {
+    Boxed,
+    Ref,
+    Retry,
+    Owned,
+}
+
+#[derive(Clone, Copy, PartialEq, Eq, Debug, Serialize, Deserialize, Hash, PartialOrd, Ord)]
+pub enum Ctor {
+    New,
+    From,
+    FromIter,
+    TryNew,
+    /// build with all but the last k leaves, then `extend` with the rest
+    NewThenExtend(usize),
+}
+
+#[derive(Clone, Copy, PartialEq, Eq, Debug, Serialize, Deserialize, Hash, PartialOrd, Ord)]
+pub enum Dtor {
+    Drop,
+    IntoChild,
+    IntoInner,
+    IntoIter,
+    GetMut,
+    ChildMut,
 }
 
 #[derive(Clone, PartialEq, Eq, Debug, Serialize, Deserialize)]
@@ -45,6 +77,9 @@ pub struct WorldSpec {
     /// shared targets, built before the threads start
     pub targets: Vec<TSpec>,
     pub gates: usize,
+    /// number of drop-counting tags used by `TSpec::Tagged`
+    #[serde(default)]
+    pub tags: usize,
 }
 
 #[derive(Clone, Copy, PartialEq, Eq, Debug, Serialize, Deserialize, Hash, PartialOrd, Ord)]
@@ -131,6 +166,8 @@ pub enum Step {
     GateOpen(usize),
     GateWait(usize),
     Yield,
+    /// take shared target out of the world and run a destruction path on it
+    Destroy(usize, Dtor),
 }
 
 #[derive(Clone, PartialEq, Eq, Debug, Serialize, Deserialize)]
@@ -183,13 +220,30 @@ impl WorldSpec {
         self.units.iter().position(|u| u.leaves.contains(&lid))
     }
 
+    /// leaves that live inside an owning collection (unit or Own target), not in an arena slot of their own
+    pub fn owned_leaves(&self) -> Vec<Lid> {
+        let mut v: Vec<Lid> = self.units.iter().flat_map(|u| u.leaves.iter().copied()).collect();
+        for t in &self.targets {
+            if let TSpec::Own { leaves, .. } = t {
+                v.extend(leaves.iter().copied());
+            }
+        }
+        v
+    }
+
     /// resolve Shared links
     pub fn resolve<'a>(&'a self, t: &'a TSpec) -> (&'a TSpec, Option<usize>) {
         let mut cur = t;
         let mut idx = None;
-        while let TSpec::Shared(i) = cur {
-            idx = Some(*i);
-            cur = &self.targets[*i];
+        loop {
+            match cur {
+                TSpec::Shared(i) => {
+                    idx = Some(*i);
+                    cur = &self.targets[*i];
+                }
+                TSpec::Tagged(_, inner) => cur = inner,
+                _ => break,
+            }
         }
         (cur, idx)
     }
@@ -239,6 +293,28 @@ impl WorldSpec {
                 let mut np = Vec::new();
                 self.flat_rec(&self.targets[*i], Some(*i), path, &mut np, poison, out);
             }
+            TSpec::Tagged(_, inner) => self.flat_rec(inner, root, path, node_path, poison, out),
+            TSpec::Own { leaves, poison: pz, kind, .. } => {
+                if *pz {
+                    poison.push(match root {
+                        Some(r) => PoisonId::Coll(r, node_path.clone()),
+                        None => PoisonId::Private(node_path.clone()),
+                    });
+                }
+                for (i, l) in leaves.iter().enumerate() {
+                    let k = self.leaves[*l];
+                    let mut p = poison.clone();
+                    for d in 0..k.layers() {
+                        p.push(PoisonId::Leaf(*l, d));
+                    }
+                    let mut pp = path.clone();
+                    pp.push(i as u8);
+                    out.push(FlatLeaf { lid: *l, kind: k, path: pp, poison: p, unit: if *kind == OwnKind::Owned { Some(1000 + root.unwrap_or(0)) } else { None } });
+                }
+                if *pz {
+                    poison.pop();
+                }
+            }
         }
     }
 
@@ -272,6 +348,18 @@ impl WorldSpec {
                 }
             }
             TSpec::Shared(i) => self.poison_rec(&self.targets[*i], Some(*i), &mut Vec::new(), out),
+            TSpec::Tagged(_, inner) => self.poison_rec(inner, root, node_path, out),
+            TSpec::Own { leaves, poison, .. } => {
+                if *poison {
+                    out.push(match root {
+                        Some(r) => PoisonId::Coll(r, node_path.clone()),
+                        None => PoisonId::Private(node_path.clone()),
+                    });
+                }
+                for l in leaves {
+                    (0..self.leaves[*l].layers()).for_each(|d| out.push(PoisonId::Leaf(*l, d)));
+                }
+            }
         }
     }
 
@@ -290,6 +378,8 @@ impl WorldSpec {
             TSpec::Unit(u) => out.push(Elem::Unit(*u)),
             TSpec::Coll { members, .. } => members.iter().for_each(|m| self.elems_rec(m, out)),
             TSpec::Shared(i) => self.elems_rec(&self.targets[*i], out),
+            TSpec::Tagged(_, inner) => self.elems_rec(inner, out),
+            TSpec::Own { leaves, .. } => leaves.iter().for_each(|l| out.push(Elem::Leaf(*l))),
         }
     }
 
@@ -311,6 +401,7 @@ impl WorldSpec {
         match t {
             TSpec::Coll { members, .. } => self.has_dup(t) || members.iter().any(|m| self.any_dup(m)),
             TSpec::Shared(i) => self.any_dup(&self.targets[*i]),
+            TSpec::Tagged(_, inner) => self.any_dup(inner),
             _ => false,
         }
     }
@@ -323,6 +414,9 @@ impl WorldSpec {
     pub fn root_kind(&self, t: &TSpec) -> Option<CollKind> {
         match self.resolve(t).0 {
             TSpec::Coll { kind, .. } => Some(*kind),
+            TSpec::Own { kind: OwnKind::Boxed, .. } => Some(CollKind::Boxed),
+            TSpec::Own { kind: OwnKind::Ref, .. } => Some(CollKind::Ref),
+            TSpec::Own { kind: OwnKind::Retry, .. } => Some(CollKind::Retry),
             _ => None,
         }
     }
@@ -331,6 +425,8 @@ impl WorldSpec {
         match t {
             TSpec::Coll { members, .. } => 1 + members.iter().map(|m| self.depth(m)).max().unwrap_or(0),
             TSpec::Shared(i) => self.depth(&self.targets[*i]),
+            TSpec::Tagged(_, inner) => self.depth(inner),
+            TSpec::Own { .. } => 1,
             _ => 0,
         }
     }
